@@ -152,8 +152,10 @@ func corrC13(r *Run) {
 		"UDHL and sm_length lies); each decoded value re-encoded, decoded and encoded again; plus values with maps of 2..50 entries rebuilt in 8 insertion orders; " +
 		"non-trivial = distinct accepted frame whose decoded value Marshal accepts"
 	ts := pduTypes()
-	n := r.N(2500, 60000)
+	n := r.N(8000, 150000)
 	caseBudget := r.N(400, 6000)
+	vol := &pduVolume{}
+	defer vol.diff(r)
 	for i := 0; i < n; i++ {
 		var frame []byte
 		bucket := ""
@@ -227,6 +229,11 @@ func corrC13(r *Run) {
 		if panicked {
 			r.Fail("reencode/marshal-panic", "Marshal panicked on a decoded PDU", in, pmsg, "a value or an error")
 			continue
+		}
+		if err == nil && len(w.calls) == 1 {
+			vol.remarshal(frame, "ok "+hexOrDash(w.calls[0]))
+		} else {
+			vol.remarshal(frame, "err")
 		}
 		// model: the decoder on this (possibly non-canonical) frame
 		if caseBudget > 0 && len(frame) < 3000 {
